@@ -93,7 +93,8 @@ func (e *Env) Spendable(k wallet.Key) ([]Utxo, error) {
 	if err != nil {
 		return nil, err
 	}
-	next := e.Height() + 1
+	// the pool validates inputs against the CURRENT head (one block stricter than block processing)
+	next := e.Height()
 	var out []Utxo
 	for _, u := range st.Utxos {
 		if string(u.Addr) == string(k.Addr.Bytes()) && u.Lock <= next {
